@@ -233,6 +233,18 @@ theorem C15_decode_encode_covered (f : OdsFeatures) (hf : f.rowRuns = false) (d 
   rw [hrows, odsRowsOf_congr (fun r => mapChildren coverCells (encodeRow f r 1)) (fun r => encodeRow f r 1) _
     (fun r _ => odsRow_cover_encodeRow f r 1), odsRowsOf_encoded f _ hsmall hcells]
 
+/-- Requesting a sheet the document does not have fails with a data-format error, also when the rows of the document sit in row
+containers or store covered cells. -/
+theorem C15_missing_sheet_grouped_covered (f : OdsFeatures) (d : OdsDoc) (k : Nat) (h : d.length < k) :
+    odsRows (some (regroupDoc (encodeDoc f d))) k = .formatError ∧ odsRows (some (coverDoc (encodeDoc f d))) k = .formatError := by
+  constructor
+  · unfold odsRows
+    simp only [tables_of_regroupDoc, List.length_map, List.length_zipIdx]
+    simp [h]
+  · unfold odsRows
+    simp only [tables_of_coverDoc, List.length_map, List.length_zipIdx]
+    simp [h]
+
 /-- cells covered by a merge (`table:covered-table-cell`) take up their column (before the repair they were skipped and the cells
 after them moved to the left) -/
 example : odsRows (some (coverDoc (encodeDoc { colRuns := true } [[[['a'], [], ['c'], ['c']], [['x'], ['y']]]]))) 1
